@@ -294,6 +294,19 @@ def jsonLineStr (name s : Bytes) : Bytes := 123 :: (escapeString name ++ 58 :: e
 /-- `-o json` of a one-column row holding a float, before the repair (`fmt` is AppendFloat 'g') -/
 def jsonLineFloat (L : Lib) (name : Bytes) (bits : Nat) : Bytes :=
   123 :: (escapeString name ++ 58 :: L.fmtFloatG bits ++ [125, 10])
+/-- `FormatCSVValue` before the repair: the `default:` branch panics on lists, structs and tuples -/
+def csvCell (L : Lib) (v : Value) : Option Bytes :=
+  match v with
+  | .null => some []
+  | .int i => some (fmtInt i)
+  | .float b => some (L.fmtFloatF b)
+  | .bool b => some (if b then trueLit else falseLit)
+  | .str s => some (strBytes s)
+  | .time ns loc => some (L.fmtTime ns loc)
+  | .dur ns => some (L.fmtDur ns)
+  | .list _ => none
+  | .struct _ => none
+  | .tuple _ => none
 end Raw
 
 end Octo.OutFmt
